@@ -229,6 +229,9 @@ template <int N, typename T> static void op_adjugate(const Case& c, Outcome& o) 
   glm::mat<N, N, T, glm::defaultp> G = glm::adjugate(R.M);
   for (int cc = 0; cc < N; ++cc) for (int r = 0; r < N; ++r) { LD want = std::ldexp((LD)R.adj.a[cc][r], R.e * (N - 1));   // all products are small integers times a power of two: any formula is exact
     if (!((LD)G[cc][r] == want)) { o.res(FT<T>::bits(G[cc][r]), (uint64_t)(cc * N + r)); o.exp(FT<T>::bits((T)want), (uint64_t)(cc * N + r)); o.bad(31, "adjugate(M) is not the matrix with adjugate(M)*M = determinant(M)*I"); return; } }
+  // gtx/matrix_factorisation helpers: fliplr reverses the column order, flipud the row order (pure copies)
+  { glm::mat<N, N, T, glm::defaultp> FL = glm::fliplr(R.M), FU = glm::flipud(R.M);
+    for (int cc = 0; cc < N; ++cc) for (int r = 0; r < N; ++r) if (!(FL[cc][r] == R.M[N - 1 - cc][r]) || !(FU[cc][r] == R.M[cc][N - 1 - r])) { o.res(FT<T>::bits(FL[cc][r]), (uint64_t)(cc * N + r)); o.bad(32, "fliplr / flipud: not the matrix with its columns / rows in reverse order"); return; } }
 }
 
 // ------------------------------------------------------------------ gtx diagonalCxR     words: [index into {-2..2}^4 (values scaled by 0.5)]
